@@ -56,6 +56,34 @@ mod kvv_memory {
     }
 }
 
+#[cfg(kani)]
+mod velocity {
+    use lightning_signer::util::velocity::{VelocityControl, VelocityControlIntervalType, VelocityControlSpec};
+
+    fn any_interval() -> VelocityControlIntervalType {
+        let k: u8 = kani::any();
+        kani::assume(k < 2);
+        if k == 0 { VelocityControlIntervalType::Hourly } else { VelocityControlIntervalType::Daily }
+    }
+
+    // C12 (complete: two interval types, every limit): the tracked interval of a control built from a spec is the
+    // named period - 3600 s for Hourly, 86400 s for Daily - whatever the bucket granularity
+    #[kani::proof]
+    #[kani::unwind(26)]
+    fn c12_tracked_interval_is_the_named_period() {
+        let limit: u64 = kani::any();
+        let it = any_interval();
+        let vc = VelocityControl::new(VelocityControlSpec { limit_msat: limit, interval_type: it });
+        let period: u64 = match it { VelocityControlIntervalType::Hourly => 3600, _ => 86400 };
+        assert!(vc.bucket_interval as u64 * vc.buckets.len() as u64 == period);
+        assert!(vc.limit == limit);
+    }
+
+    // (a bounded harness over two VelocityControl::insert calls - 3 buckets, 32-bit amounts - did not finish within 15 minutes
+    // under CBMC and ran out of memory with 4 buckets / 64-bit amounts: Vec::insert(0, ..) with a symbolic shift; the window
+    // bound is proved by Verus in units velocity / velocity_window instead)
+}
+
 // A bounded harness for SimpleValidator::validate_justice_sweep (<= 2 outputs, mock Wallet, fabricated keys) was tried
 // here as a shape-independent second route for C09: the Kani 0.68 compiler aborts with an internal error
 // (kani-compiler/src/intrinsics.rs:243, assertion on an intrinsic's return type) while compiling the harness, and a
